@@ -18,7 +18,7 @@ type IOState struct {
 
 var readOnlyKinds = map[string]bool{"get": true, "geti": true, "exist": true, "min": true, "max": true, "tot": true,
 	"evict": true, "reopen": true, "snap": true, "names": true, "asc": true, "desc": true, "ascx": true, "descx": true,
-	"itasc": true, "itdesc": true, "nasc": true, "ndesc": true, "nit": true, "junk": true, "copyto": true, "len": true, "close": true, "blk": true, "rnd": true, "coll": true, "rmcoll": true}
+	"itasc": true, "itdesc": true, "nasc": true, "ndesc": true, "nit": true, "junk": true, "copyto": true, "itx": true, "vall": true, "len": true, "close": true, "blk": true, "rnd": true, "coll": true, "rmcoll": true}
 
 // key-only calls: must never read a byte of any item's value (C19)
 func keyOnly(op Op) bool {
